@@ -40,6 +40,9 @@ type bsCons struct {
 	getCtxErr bool               // the get's ctx has been cancelled by the driver
 	// first-time read stream (C01): absolute indexes handed out for the first time
 	highRead int // highest absolute index + 1 ever read (first-time frontier)
+	// the last Get on this consumer failed: C05 says it consumed nothing, so what follows must behave as if
+	// it had never been issued (divergences right after it are attributed to C05 as well)
+	afterFailedGet bool
 }
 
 func (c *bsCons) pos() int   { return c.committed + c.delta }
@@ -319,6 +322,7 @@ func (m *bsMachine) finishGet(c *bsCons, wantVal int, wantErr bool) {
 			m.fail("C05+C12/get-value-after-cancel-or-close", "Get(c%d) returned %v, expected an error (closed=%v open=%v)", c.id, r.v, m.closed, c.open)
 		}
 		m.getErrNoAdv = true
+		c.afterFailedGet = true
 		m.tr("get(c%d)=err", c.id)
 		return
 	}
@@ -326,6 +330,9 @@ func (m *bsMachine) finishGet(c *bsCons, wantVal int, wantErr bool) {
 		m.fail("C01+C03/get-error", "Get(c%d) failed with %v although value %d at index %d is retained (base %d, |G| %d)", c.id, r.err, wantVal, c.pos(), m.base, len(m.G))
 	}
 	if r.v != any(wantVal) {
+		if c.afterFailedGet {
+			m.fail("C05+C01/value-after-failed-get", "Get(c%d) returned %v, expected %d: the previous Get on this consumer failed and must not have consumed anything", c.id, r.v, wantVal)
+		}
 		if c.pos() < c.highRead {
 			m.fail("C02/replay-value", "Get(c%d) after rollback returned %v, expected the previously read %d (index %d)", c.id, r.v, wantVal, c.pos())
 		}
@@ -339,6 +346,7 @@ func (m *bsMachine) finishGet(c *bsCons, wantVal int, wantErr bool) {
 		c.highRead = c.pos() + 1
 	}
 	c.delta++
+	c.afterFailedGet = false
 	m.tr("get(c%d)=%d", c.id, wantVal)
 }
 
@@ -454,18 +462,21 @@ func (m *bsMachine) checkObservers() {
 		if c.busy() {
 			continue
 		}
-		if !m.on("C03", "C12") {
+		if !m.on("C03", "C12", "C05") {
 			break
 		}
 		d, ok := m.b.Diff(c.c)
-		if ok != c.open {
+		if ok != c.open && m.on("C03", "C12") {
 			m.fail("C03+C12/diff-registered", "Diff(c%d) ok=%v, consumer open=%v", c.id, ok, c.open)
 		}
-		if c.open && m.on("C03") {
-			if want := len(m.G) - c.pos(); d != want {
+		if c.open && m.on("C03", "C05") {
+			if want := len(m.G) - c.pos(); d != want && c.afterFailedGet && m.on("C05") {
+				m.fail("C05+C03/diff-after-failed-get", "Diff(c%d)=%d, expected %d: the failed Get must not have advanced the consumer", c.id, d, want)
+			}
+			if want := len(m.G) - c.pos(); d != want && m.on("C03") {
 				m.fail("C03/diff-value", "Diff(c%d)=%d, expected %d (= %d put - read position %d)", c.id, d, want, len(m.G), c.pos())
 			}
-			if (d > size) != (c.pos() < m.base) {
+			if (d > size) != (c.pos() < m.base) && m.on("C03") {
 				m.fail("C03/diff-vs-size", "Diff(c%d)=%d Size=%d but lagging=%v", c.id, d, size, c.pos() < m.base)
 			}
 			if c.pos() < m.base {
@@ -712,6 +723,9 @@ func (m *bsMachine) ruleCommit(t *rapid.T) {
 	err := c.c.Commit()
 	if c.delta == 0 {
 		if err == nil {
+			if c.afterFailedGet {
+				m.fail("C05+C02/commit-after-failed-get", "Commit(c%d) returned nil although nothing is pending: the preceding failed Get must not have consumed anything", c.id)
+			}
 			m.fail("C02/commit-nothing", "Commit(c%d) with nothing pending returned nil", c.id)
 		}
 		m.tr("commit(c%d)=err", c.id)
@@ -736,6 +750,9 @@ func (m *bsMachine) ruleRollback(t *rapid.T) {
 	err := c.c.Rollback()
 	if c.delta == 0 {
 		if err == nil {
+			if c.afterFailedGet {
+				m.fail("C05+C02/rollback-after-failed-get", "Rollback(c%d) returned nil although nothing is pending: the preceding failed Get must not have consumed anything", c.id)
+			}
 			m.fail("C02/rollback-nothing", "Rollback(c%d) with nothing pending returned nil", c.id)
 		}
 		m.tr("rollback(c%d)=err", c.id)
